@@ -14,7 +14,7 @@ BUDGET = {"quick": 4000, "thorough": 80000}
 CLEAR_CACHES_EVERY = 400
 RULE = (
     "Four generated sub-checks. (a) argmax(a, axis, initial=-inf, where) on arrays of rank 1-4 (axis sizes 1-4), "
-    "every non-empty increasing axis subset, masks incl. fully masked slices, values from a 3-element set (ties) or "
+    "every non-empty axis subset (increasing in 3 of 4 cases, otherwise in arbitrary order: the flat position then refers to the reduced axes in the order in which they were PASSED, i.e. the shape one would hand to unravel_index), masks incl. fully masked slices, values from a 3-element set (ties) or "
     "dyadic rationals, eager and jitted: the flat index must be the FIRST unmasked position attaining the masked "
     "maximum (0 if all masked) and the returned maximum must equal the NumPy masked maximum exactly. (b) the same "
     "with the array and mask COMPUTED INSIDE the same jitted, vmap_1d(productmap(...)) computation from generated "
@@ -54,7 +54,9 @@ def case_a(draw):
     n = int(np.prod(shape))
     vals = values(draw, n)
     k = draw(st.integers(1, rank))
-    axes = sorted(draw(st.lists(st.integers(0, rank - 1), min_size=k, max_size=k, unique=True)))
+    axes = draw(st.lists(st.integers(0, rank - 1), min_size=k, max_size=k, unique=True))
+    if draw(st.integers(0, 3)) > 0:
+        axes = sorted(axes)  # the order lcm's own callers use; 1 case in 4 keeps an arbitrary order
     use_mask = draw(st.integers(0, 3)) > 0
     mask = draw(st.lists(st.integers(0, 3).map(lambda x: x > 0), min_size=n, max_size=n)) if use_mask else None
     if use_mask and draw(st.integers(0, 3)) == 0:
@@ -145,7 +147,7 @@ def check_a(case):
     axes = tuple(case["axes"])
     mask = None if case["mask"] is None else np.asarray(case["mask"], dtype=bool).reshape(shape)
     axis_arg = axes[0] if (len(axes) == 1 and case["int_axis"]) else axes
-    if len(axes) == len(shape) and case["int_axis"] and len(axes) > 1:
+    if len(axes) == len(shape) and case["int_axis"] and len(axes) > 1 and list(axes) == sorted(axes):
         axis_arg = None
     kw = {}
     if mask is not None:
